@@ -16,6 +16,7 @@ EXPLANATION = (
     "the call-stack traversal; symbolic evaluation of get_critical_path_breakdown (one record per critical edge with duration = weight, type = enum value, "
     "event_idx = attribution; left merge on the unique event id; no row-changing operation afterwards) and of summary (per-class share of the total * 100). "
     "NOT decided: that the attributed event's span covers the edge's time range on every graph (follows from C03 + C08 behaviour at run time)."
+    " Later additions: row-local classification functions, stateless symbol decoder, effect rules."
 )
 CP = "hta.analyzers.critical_path_analysis"
 
